@@ -715,6 +715,9 @@ class SPathTok(Sym):
     def __init__(self, what):
         self.what = what
 
+    def __repr__(self):
+        return f"SPathTok({self.what!r})"      # structural: equal tokens have equal text (used as file-map key)
+
     def sym_isinstance(self, ex, cls):
         return cls in (str, object)
 
@@ -1466,7 +1469,7 @@ class CreateDocBackup(Contract):
     inline = (f"{SY}._DocProxy.__init__", f"{SY}._DocProxy.__len__", f"{SY}._DocProxy.clear")
 
     def cases(self):
-        return [{"dry_run": d, "body": b, "kind": k} for d in (False, True) for b in ("ok", "raises") for k in ("memory", "file")]
+        return [{"dry_run": d, "body": b, "kind": k} for d in (False, True) for b in ("ok", "raises") for k in ("memory", "file", "file-with-stale-backup")]
 
     def make_ctx(self, case):
         import copy
@@ -1500,11 +1503,15 @@ class CreateDocBackup(Contract):
         orig = z3.Const("orig_doc", DocC)
         x = z3.Const("ux", DocC)
         ex.assume(z3.ForAll([x], doc_upd(EMPTYDOC, x) == x))
-        doc = SDocObj(orig, case["kind"] == "file")
-        if case["kind"] == "file":
+        doc = SDocObj(orig, case["kind"] != "memory")
+        if case["kind"] != "memory":
             ex.assume(orig != EMPTYDOC)
             g["files"][interp.ctx.key(SPathTok("docfile"))] = z3.Const("some_content", Content)
             ex.assume(z3.Const("some_content", Content) != ABSENT)
+        if case["kind"] == "file-with-stale-backup":
+            # a backup file left behind by an interrupted sync sits next to the document
+            g["files"][interp.ctx.key(SPathTok(("backup", SPathTok("docfile"))))] = z3.Const("stale_backup", Content)
+            ex.assume(z3.Const("stale_backup", Content) != ABSENT)
         g.update({"doc": doc, "orig": orig})
         return [mk_file_proxy(interp, case["dry_run"], None), doc], {}, {}
 
@@ -1523,7 +1530,7 @@ class CreateDocBackup(Contract):
         y = g.get("yielded")
         ok_proxy = isinstance(y, Obj) and y.cls.name == "_DocProxy" and y.fields.get("doc") is g["doc"] and y.fields.get("dry_run") is case["dry_run"]
         ex.oblige(self.oname("ensures:yields_a_proxy_of_the_document_carrying_dry_run"), z3.BoolVal(bool(ok_proxy)))
-        if case["kind"] == "file":
+        if case["kind"] != "memory":
             cb = g.get("create_backup_called_with")
             ex.oblige(self.oname("ensures:file_backed_documents_are_protected_by_a_file_backup"), z3.BoolVal(isinstance(cb, SPathTok) and cb.what == "docfile"))
         if case["body"] == "raises":
